@@ -157,6 +157,31 @@ macro_rules! dispatch {
     }};
 }
 
+/// C13 for `regex`: ONE parser value over a history of inputs that are windows of one buffer (every prefix of the text, growing
+/// and then shrinking again, so that a search that fails at an address is followed by one that succeeds at the same address and
+/// vice versa); every step must give what a fresh parser gives (the check compares with the oracle of the prefix)
+fn regex_hist<W: Write>(w: &mut W, id: &str, inst: &str, params: &[u32], ins: &[Vec<u32>]) {
+    let pat = PATTERNS[params.first().copied().unwrap_or(0) as usize % PATTERNS.len()];
+    let run = |f: &dyn Fn() -> String| std::panic::catch_unwind(std::panic::AssertUnwindSafe(f)).unwrap_or_else(|_| "P panic".to_string());
+    if inst == "char" {
+        let strs: Vec<String> = ins.iter().map(|ts| ts.iter().map(|&t| char::from_u32(t).unwrap_or('\u{fffd}')).collect()).collect();
+        let p = chumsky::regex::regex::<&str, Ex>(pat);
+        for (k, s) in strs.iter().enumerate() {
+            let ends: Vec<usize> = s.char_indices().map(|(i, _)| i).chain([s.len()]).collect();
+            let obs: Vec<String> = ends.iter().chain(ends.iter().rev()).map(|&e| run(&|| observe_str(&p, &s[..e]))).collect();
+            let _ = writeln!(w, "{id}.{k} M {}", obs.join(" | "));
+        }
+    } else {
+        let strs: Vec<Vec<u8>> = ins.iter().map(|ts| ts.iter().map(|&t| t as u8).collect()).collect();
+        let p = chumsky::regex::regex::<&[u8], Ex>(pat);
+        for (k, s) in strs.iter().enumerate() {
+            let ends: Vec<usize> = (0..=s.len()).collect();
+            let obs: Vec<String> = ends.iter().chain(ends.iter().rev()).map(|&e| run(&|| observe_u8(&p, &s[..e]))).collect();
+            let _ = writeln!(w, "{id}.{k} M {}", obs.join(" | "));
+        }
+    }
+}
+
 pub fn main() {
     chumsky_verif_harness::run::install_panic_hook();
     let stdin = std::io::stdin();
@@ -178,6 +203,10 @@ pub fn main() {
         let params = nat_list(&toks, &mut i);
         assert_eq!(toks[i], "I");
         let ins = inputs(&toks, i + 1);
+        if pname == "regex_hist" {
+            regex_hist(&mut w, id, inst, &params, &ins);
+            continue;
+        }
         for (k, ts) in ins.iter().enumerate() {
             let obs = std::panic::catch_unwind(std::panic::AssertUnwindSafe(|| {
                 if inst == "char" {
